@@ -400,3 +400,13 @@ func vh_C09_L11_teardown_closes_the_writers_channel() {
 	vassert(released, "writers parked on the gate's channel are released by the teardown")
 	vcover("end")
 }
+
+// C09.L13: calls that must return: the connect call gets the handshake result whenever it
+// reaches its wait (= C04.L7); a blocking write that fails leaves the gate usable for the
+// writers behind it (= C20.L9).
+func vh_C09_L13_connect_call_gets_its_result() {
+	vh_C04_L7_handshake_result_waits_for_the_connect_call()
+}
+func vh_C09_L13_failed_writer_does_not_strand_others() {
+	vh_C20_L9_parked_write_fails_while_others_go_on()
+}
